@@ -10,10 +10,11 @@ import vlib, m2, m3
 from batch import Batch, J
 from props.c02 import HAND, defs_of, small_ints, typeless_struct
 
-PROOF_TARGETS = ["TypifyModel.Proofs.C03"]
+PROOF_TARGETS = ["TypifyModel.Proofs.C03", "TypifyModel.Proofs.C03Contain"]
 PROOF_FILES = ["Proofs/C03.lean", "Proofs/Lemmas/RoundTripLemmas.lean", "Proofs/Lemmas/RoundTripStruct.lean",
                "Proofs/Lemmas/RoundTripStruct2.lean", "Proofs/Lemmas/RoundTripMain.lean", "Proofs/Lemmas/RoundTripEnum.lean",
-               "Proofs/Lemmas/SortedKv.lean"]
+               "Proofs/Lemmas/SortedKv.lean", "Proofs/C03Contain.lean", "Proofs/Lemmas/ContainBasic.lean", "Proofs/Lemmas/ContainRefl.lean",
+               "Proofs/Lemmas/ContainList.lean", "Proofs/Lemmas/ContainStruct.lean", "Proofs/Lemmas/ContainEnum.lean"]
 
 def cases(ctx):
     import gen
@@ -89,7 +90,7 @@ def run(ctx):
             c.ops_types = [t for t in (c.dump["ref_to_id"].get("#" if k == "#" else "def:" + k) for k, _ in defs_of(c.doc)) if t is not None]
     b.build()
     live = [c for c in bc if c.compiled]
-    reqs = []; meta = []; oreq = []; docids = {}; rtok_req = []
+    reqs = []; meta = []; oreq = []; docids = {}; rtok_req = []; decl_req = []
     ninst = 10 if ctx.tier == "thorough" else 5
     for c in live:
         for key, schema in defs_of(c.doc):
@@ -112,12 +113,19 @@ def run(ctx):
                     if not gen.only_declared(c.doc, schema, v): continue
                 except Exception: continue
                 seen.add(s)
-                reqs.append((c, t, "rt", s)); meta.append((c, key, schema, v))
+                reqs.append((c, t, "rt", s)); meta.append((c, key, schema, v)); decl_req.append((c, t, "declared", s))
     # side conditions of the theorem on the real dumps
-    rtok = {"true": 0, "false": 0, "other": 0}
+    rtok = {"true": 0, "false": 0, "other": 0}; ans = []
     if st["driver_ok"] and rtok_req:
         ans, _ = m3.model_answers(live, rtok_req)
         for a in ans: rtok[a if a in rtok else "other"] += 1
+    decl = {"true": 0, "false": 0, "other": 0}; inside = 0
+    if st["driver_ok"] and decl_req:
+        dans, _ = m3.model_answers(live, decl_req)
+        okt = {(id(rq[0]), rq[1]) for rq, a in zip(rtok_req, ans) if a == "true"}
+        for rq, a in zip(decl_req, dans):
+            decl[a if a in decl else "other"] += 1
+            if a == "true" and (id(rq[0]), rq[1]) in okt: inside += 1
     r = m3.compare(b, live, reqs) if st["driver_ok"] else {"real": b.run(reqs), "model": None, "disagreements": [], "skipped_model": 0, "skipped_real": 0}
     # implementation oracle
     ws = []; idx = []
@@ -150,8 +158,8 @@ def run(ctx):
             fd = attribute(findings, c, key, v, what)
             if fd: known_hit[fd["id"]] = known_hit.get(fd["id"], 0) + 1
             else: fails.append((c, key, v, w, w2, what))
-    ctx.log("cases=%d compiled=%d rt requests=%d checked=%d rtok=%s M3 disagreements=%d oracle failures=%d known=%s" %
-            (len(bc), len(live), len(reqs), checked, rtok, len(r["disagreements"]), len(fails), known_hit))
+    ctx.log("cases=%d compiled=%d rt requests=%d checked=%d rtok=%s declared=%s M3 disagreements=%d oracle failures=%d known=%s" %
+            (len(bc), len(live), len(reqs), checked, rtok, decl, len(r["disagreements"]), len(fails), known_hit))
     for fd in findings:
         vlib.known(ctx, fd) if witness_fails(fd) else ctx.notes.append("known finding %s no longer reproduces" % fd["id"])
     broken = list(st["broken"])
@@ -176,11 +184,12 @@ def run(ctx):
            "rule": "per definition of every compiled case: schema-directed valid instances and boundary instances containing only declared members; distinct by (case, definition, JSON text); each is non-trivial (round-trips through at least the definition's own type)",
            "samples": [{"case": c.tag, "def": k, "instance": v} for (c, k, s, v) in meta[:4]],
            "definitions_satisfying_theorem_hypotheses(rtok)": rtok["true"], "definitions_outside_hypotheses": rtok["false"],
+           "instances_declared(hypothesis of rt_contains)": decl, "instances_inside_both_theorems": inside,
            "traces_validated_against_impl": len(reqs) - r["skipped_model"] - r["skipped_real"],
            "model_disagreements_M3": len(r["disagreements"]), "differences_attributed_to_C06_nested_default": r.get("attributed_C06_nested_default", 0), "model_out_of_fragment": r["skipped_model"],
            "oracle_checked_roundtrips": checked, "impl_oracle_failures_new": len(fails), "impl_oracle_failures_known": known_hit}
     vlib.write_evidence(ctx, "proof", cov, [
-        "the theorem is value-level idempotence (de (se x) = x hence roundtrip(w) = w); schema-validity of w and containment of prune(v) in prune(w) are NOT theorems yet: they are evaluated on the compiled code by the oracle for every instance",
+        "theorems: value-level idempotence (de_se_de, rt_fixed_point: roundtrip(w) = w) and containment (rt_contains: declared v => prune(v) contained in prune(w)), both for every reference-closed closedOkB set; schema-validity of w is NOT a theorem: it is evaluated on the compiled code by the oracle for every instance (as are the other two clauses)",
         "untagged enums, internally tagged newtype variants, flattened members and natives are outside the theorem's hypotheses (entryOkB) and exercised on compiled code only",
         "serde_derive/serde_json modelled, not verified"])
 
